@@ -7,6 +7,7 @@ package main
 import (
 	"encoding/json"
 	"fmt"
+	"go/token"
 	"go/types"
 	"math"
 	"os"
@@ -97,6 +98,9 @@ func (i *interpreter) findExternal(fn *ssa.Function) externalFn {
 		if fn.Blocks == nil {
 			panic(engineError("unknown vx intrinsic " + fn.Name()))
 		}
+	}
+	if ext := shapeExternal(fn); ext != nil {
+		return ext
 	}
 	if fn.Pkg != nil {
 		pp := fn.Pkg.Pkg.Path()
@@ -1063,4 +1067,50 @@ func extErrorf(fr *frame, args []value) value {
 	// build an *errors.errorString via the interpreted errors.New
 	fn := fr.i.lookupFunc("errors", "New")
 	return call(fr.i, fr, 0, fn, []value{s})
+}
+
+
+// shapeExternal recognises a few stubbed functions by package and shape rather
+// than by name, so that renaming an unexported helper does not lose its stub:
+// the md5 helper of xfer/md5 (func([]byte) ([]byte, error)) and the zero-copy
+// []byte<->string puns (tiny functions converting through unsafe.Pointer).
+func shapeExternal(fn *ssa.Function) externalFn {
+	if fn.Pkg == nil || fn.Signature.Recv() != nil || fn.Blocks == nil {
+		return nil
+	}
+	sig := fn.Signature
+	isBytes := func(t types.Type) bool {
+		sl, ok := t.Underlying().(*types.Slice)
+		if !ok {
+			return false
+		}
+		b, ok := sl.Elem().Underlying().(*types.Basic)
+		return ok && b.Kind() == types.Uint8
+	}
+	isString := func(t types.Type) bool {
+		b, ok := t.Underlying().(*types.Basic)
+		return ok && b.Kind() == types.String
+	}
+	pp := fn.Pkg.Pkg.Path()
+	if pp == repoModule+"/xfer/md5" && !token.IsExported(fn.Name()) && sig.Params().Len() == 1 && sig.Results().Len() == 2 &&
+		isBytes(sig.Params().At(0).Type()) && isBytes(sig.Results().At(0).Type()) && sig.Results().At(1).Type().String() == "error" {
+		return externals[repoModule+"/xfer/md5.getMd5"]
+	}
+	if sig.Params().Len() == 1 && sig.Results().Len() == 1 && len(fn.Blocks) == 1 && len(fn.Blocks[0].Instrs) <= 8 {
+		pun := false
+		for _, in := range fn.Blocks[0].Instrs {
+			if c, ok := in.(*ssa.Convert); ok {
+				if b, ok := c.Type().Underlying().(*types.Basic); ok && b.Kind() == types.UnsafePointer {
+					pun = true
+				}
+			}
+		}
+		if pun && isBytes(sig.Params().At(0).Type()) && isString(sig.Results().At(0).Type()) {
+			return extBytesToStringAlias
+		}
+		if pun && isString(sig.Params().At(0).Type()) && isBytes(sig.Results().At(0).Type()) {
+			return extStringToBytesAlias
+		}
+	}
+	return nil
 }
